@@ -36,6 +36,11 @@ fn base32_padding_ok(s: &str, padded: bool) -> bool {
     if body.contains('=') {
         return false;
     }
+    // 1, 3 or 6 digits in the last group of eight hold no whole byte more than
+    // one digit less: no encoder writes them, the library would drop their bits
+    if !matches!(body.len() % 8, 0 | 2 | 4 | 5 | 7) {
+        return false;
+    }
     if padded {
         s.len() % 8 == 0 && s.len() - body.len() < 8
     } else {
